@@ -531,6 +531,16 @@ impl World {
         self.net.borrow().links.get(&(src, dst)).map_or(0, |q| q.len())
     }
 
+    /// Text form of the k-th in-flight message of a link (for late duplicates).
+    pub fn peek(&self, src: usize, dst: usize, k: usize) -> Option<String> {
+        let n = self.net.borrow();
+        let q = n.links.get(&(src, dst))?;
+        if q.is_empty() {
+            return None;
+        }
+        Some(q[k % q.len()].text())
+    }
+
     pub fn links(&self) -> Vec<(usize, usize, usize)> {
         self.net.borrow().links.iter().map(|(k, q)| (k.0, k.1, q.len())).collect()
     }
